@@ -48,6 +48,7 @@ type Scenario struct {
 	TracePath string  `json:"trace_path,omitempty"`  // -P <root>/<path>
 	Fsize    int64    `json:"fsize,omitempty"`       // prlimit --fsize (bytes); -1 = none
 	UseFsize bool     `json:"use_fsize,omitempty"`
+	StdoutFull bool   `json:"stdout_full,omitempty"` // standard output is /dev/full: every write to it fails
 	AsLimit  int64    `json:"as_limit,omitempty"`    // prlimit --as (bytes of address space); 0 = none
 	NoHooks  bool     `json:"no_hooks,omitempty"`
 	TimeoutMs int     `json:"timeout_ms,omitempty"`
@@ -337,6 +338,12 @@ func runScenario(bin, workdir string, sc *Scenario) (*RunRec, error) {
 	cmd.Stdin = strings.NewReader(sc.Stdin)
 	var so, se bytes.Buffer
 	cmd.Stdout, cmd.Stderr = &so, &se
+	if sc.StdoutFull {
+		if full, err := os.OpenFile("/dev/full", os.O_WRONLY, 0); err == nil {
+			defer full.Close()
+			cmd.Stdout = full
+		}
+	}
 	cmd.Env = os.Environ()
 	if sc.RunAs != 0 {
 		cmd.Env = append(cmd.Env, "HOME=/nonexistent")
